@@ -385,6 +385,8 @@ pub struct LdapConnAsync {
     id_scrub_rx: mpsc::UnboundedReceiver<RequestId>,
     misc_rx: mpsc::UnboundedReceiver<MiscSender>,
     stream: Framed<ConnType, LdapCodec>,
+    #[cfg(ldap3_verif)]
+    verif_gauges: Arc<Mutex<(usize, usize)>>,
 }
 
 /// Drive the connection until its completion. __*__
@@ -685,6 +687,13 @@ impl LdapConnAsync {
         Self::conn_pair(ConnType::Verif(io))
     }
 
+    /// Verification hook: sizes of the result and search routing maps, refreshed
+    /// at the top of every driver loop turn.
+    #[cfg(ldap3_verif)]
+    pub fn verif_gauges(&self) -> Arc<Mutex<(usize, usize)>> {
+        self.verif_gauges.clone()
+    }
+
     fn conn_pair(ctype: ConnType) -> (Self, Ldap) {
         #[cfg(feature = "gssapi")]
         let client_ctx = Arc::new(Mutex::new(None));
@@ -709,6 +718,8 @@ impl LdapConnAsync {
             id_scrub_rx,
             misc_rx,
             stream: codec.framed(ctype),
+            #[cfg(ldap3_verif)]
+            verif_gauges: Arc::new(Mutex::new((0, 0))),
         };
         let ldap = Ldap {
             msgmap: conn.msgmap.clone(),
@@ -780,6 +791,11 @@ impl LdapConnAsync {
 
     async fn turn(mut self, mode: LoopMode) -> Result<Self> {
         loop {
+            #[cfg(ldap3_verif)]
+            {
+                *self.verif_gauges.lock().expect("verif gauges") =
+                    (self.resultmap.len(), self.searchmap.len());
+            }
             tokio::select! {
                 req_id = self.id_scrub_rx.recv() => {
                     if let Some(req_id) = req_id {
